@@ -74,3 +74,46 @@ extern "C" void h_conf_regex()
         out_match(re.match(subj), k == 8 ? 1 : 0);
     }
 }
+
+// flat fragment (-DQM_RX_FLAT in the model build): category-rule expressions and flat RegExpFilter expressions
+extern "C" void h_conf_flat()
+{
+    static const unsigned short menu[] = { 'a', 'b', '.', '*', '+', '(', '_', '1', '?', '\\' };
+    int which = vf_range(0, 2);
+    QString cat = vf_string_menu(4, menu, 10);
+    QString subj = vf_string_menu(5, menu, 10);
+    vf_out_int(which); out_str(cat); out_str(subj);
+    if (which == 0) {
+        QString esc = QRegularExpression::escape(cat);
+        esc.replace("\\*", ".*");
+        auto re = QRegularExpression("^" + esc + "$");
+        vf_out_int(re.match(subj).hasMatch());
+    } else if (which == 1) {
+        // what a missing escape() would build: metacharacters of the category are live
+        static const unsigned short menu2[] = { 'a', 'b', '.', '*', '+', '_', '?' };
+        QString raw = vf_string_menu(4, menu2, 7);
+        // keep it a valid expression: no leading quantifier, no stacked quantifiers
+        bool ok = true; bool prevQ = true;
+        for (int i = 0; i < raw.size(); ++i) { ushort c = raw.at(i).unicode(); bool q = c == '*' || c == '+' || c == '?'; if (q && prevQ) ok = false; prevQ = q; }
+        out_str(raw);
+        if (ok) { auto re = QRegularExpression("^" + raw + "$"); vf_out_int(re.match(subj).hasMatch()); }
+    } else {
+        static const char *pats[] = { "err", "^a.*b$", "^$", ".*", "a+b?", "a.b", "b$" };
+        int k = vf_range(0, 6);
+        vf_out_int(k);
+        auto re = QRegularExpression(QString::fromLatin1(pats[k]));
+        vf_out_int(re.match(subj).hasMatch());
+    }
+}
+
+// wildcardToRegularExpression (flat mode)
+extern "C" void h_conf_wild()
+{
+    static const unsigned short menu[] = { 'a', 'b', '.', '*', '?', '/', '+', '(' };
+    QString w = vf_string_menu(4, menu, 8);
+    QString subj = vf_string_menu(5, menu, 8);
+    out_str(w); out_str(subj);
+    QString rx = QRegularExpression::wildcardToRegularExpression(w);
+    out_str(rx);
+    vf_out_int(QRegularExpression(rx).match(subj).hasMatch());
+}
